@@ -690,3 +690,23 @@ def destroy_before_free(fn, destroy_callee):
             seen.add(x)
             out.append(x)
     return out
+
+
+def shutdown_resets(fn):
+    """Globals whose object a shutdown function releases (`X_free (G)`) are stored NULL afterwards on every path: the matching init
+    creates the object only when the pointer is NULL, so a dangling pointer survives the next init and every lock on the destroyed
+    object fails silently.  -> [(global, line of the release)] for releases not followed by the reset"""
+    bad = []
+    rels = []
+    for (b, i, c) in fn.calls():
+        cn = c.get("callee") or ""
+        if cn.endswith("_free") and c.get("args"):
+            a = strip_casts(c["args"][0])
+            if a is not None and a["k"] == "ref" and a.get("decl") == "global":
+                rels.append((b, i, c, a["name"]))
+    for (b, i, c, g) in rels:
+        resets = [(b2, i2) for (b2, i2, n) in fn.nodes(elsewhere=True) if n["k"] == "asg" and n.get("op") == "=" and strip_casts(n["l"])["k"] == "ref"
+                  and strip_casts(n["l"])["name"] == g and cv(n["r"]) == 0]
+        if not any(fn.postdominates(b2.id, b.id) or (b2.id == b.id and i2 > i) for (b2, i2) in resets):
+            bad.append((g, line(c)))
+    return len(rels), bad
